@@ -214,6 +214,14 @@ def random_svd(ctx, idx, rng):
         with monitor.write_protected(A, q0, q1):
             res = ptn.split_matrix_svd(A, q0, q1, tol)
         oracles.check_svd(ctx, snap[0], snap[1], snap[2], tol, (A, q0, q1), res)
+    if A.flags.writeable and idx % 3 == 0 and nA > 0:
+        # history: the SAME array object changed in place and split again
+        A *= 3
+        A[np.nonzero(A)[0][0], np.nonzero(A)[1][0]] *= -5
+        snap = oracles.snapshot_arrays(A, q0, q1)
+        ctx.case(('svd', lay, kind, 'after-inplace-edit'), sample={'A': snap[0], 'q0': q0, 'q1': q1, 'tol': tols[0]})
+        res = ptn.split_matrix_svd(A, q0, q1, tols[0])
+        oracles.check_svd(ctx, snap[0], snap[1], snap[2], tols[0], (A, q0, q1), res)
 
 
 def random_retained(ctx, idx, rng):
